@@ -296,7 +296,9 @@ def run(ctx, p):
                 ctx.check(t is not None and bool(sym_and(t.hour == h, t.minute == m)), "timer_getter", detail={"which": which})
         elif kind == "version":
             upd = ctx.byte("upd")
-            inst.version = (True, "9.8.7")
+            same_text = bool(ctx.choice("same_text", 2))
+            vtext = "1.2.3" if same_text else "9.8.7"         # "1.2.3" is what the handshake reported
+            inst.version = (True, vtext)
             raw = con.version_frame(pid=0x45)
             # patch the update-sign byte with a symbolic value (frame rebuilt with reference framing)
             hl = framing.header_len(g.n)
@@ -305,7 +307,7 @@ def run(ctx, p):
             push(con.frame(0x1F, data, pid=0x45))
             ctx.check(len(rig.net.conns) == n_conn and not rig.task_failures(), "frame_accepted")
             ctx.check(bool(rig.at.update_available) == bool(upd != 0), "version_getter")
-            ctx.check(list(rig.at.console_versions) == ["9.8.7"], "version_getter", detail=str(list(rig.at.console_versions)))
+            ctx.check(list(rig.at.console_versions) == [vtext], "version_getter", detail=str(list(rig.at.console_versions)))
         elif kind == "error_cycle":
             A = api()
             ac = ctx.choice("ac", 2)
@@ -321,6 +323,14 @@ def run(ctx, p):
             push(con.ac_status_frame(pid=0x46, only=[ac]))
             ei = rig.ac(ac).error_info
             ctx.check(ei is not None and bool(ei.code == code) and ei.description == "ER: FFFE", "error_details", detail=repr(ei))
+            # another attribute changes while the error persists: code and description are still shown
+            rec1 = list(rec)
+            rec1[2] = (rec1[2] ^ 0x01) if g.n == 4 else (rec1[2] ^ 0x01)
+            inst.ac_status[ac] = rec1
+            push(con.ac_status_frame(pid=0x4D, only=[ac]))
+            ei = rig.ac(ac).error_info
+            ctx.check(ei is not None and bool(ei.code == code) and ei.description == "ER: FFFE", "error_details",
+                      detail="description lost on a status change while the error persists: " + repr(ei))
             rec2 = list(rec)
             rec2[6], rec2[7] = 0, 0
             inst.ac_status[ac] = rec2
